@@ -118,8 +118,17 @@ func typeKeyOf(t types.Type) string {
 // object per call site instead of one merged object.
 func (it *Interp) ObjectFor(site ssa.Value, t types.Type, name string, mode ObjMode) *Object {
 	key := siteKey{site: site}
-	if _, isGlobal := site.(*ssa.Global); !isGlobal {
-		key.ctx = it.ctxKey()
+	// Only cells that hold a captured variable (parameters and locals lifted to the
+	// heap because a closure refers to them) are split per calling context:
+	// closure constructors are called many times with different bindings.
+	// Component objects (composite literals, new, make) stay one object per site:
+	// the constructors that allocate them run once per instance.
+	if a, isAlloc := site.(*ssa.Alloc); isAlloc {
+		switch a.Comment {
+		case "complit", "new", "makeslice", "slicelit", "varargs", "":
+		default:
+			key.ctx = it.ctxKey()
+		}
 	}
 	if o, ok := it.objBySite[key]; ok {
 		return o
@@ -362,27 +371,45 @@ func (it *Interp) multi(t, f Value) Value {
 		return &Top{D: Union(DepsOf(t), DepsOf(f))}
 	}
 	var alts []Value
-	add := func(v Value) {
-		if m, ok := v.(*Multi); ok {
-			for _, a := range m.Alts {
-				dup := false
-				for _, e := range alts {
-					if it.sameValue(e, a) {
-						dup = true
-					}
-				}
-				if !dup {
-					alts = append(alts, a)
-				}
-			}
-			return
+	// alternatives denoting the same reference (same slice backing, same
+	// interface type, same pointer target) are merged, not duplicated
+	sameRef := func(x, y Value) bool {
+		switch a := x.(type) {
+		case *Slice:
+			b, ok := y.(*Slice)
+			return ok && a.Obj == b.Obj && a.Path == b.Path
+		case *Iface:
+			b, ok := y.(*Iface)
+			return ok && types.Identical(a.T, b.T)
+		case *Ptr:
+			b, ok := y.(*Ptr)
+			return ok && a.Obj == b.Obj && a.Path == b.Path && len(a.Idx) == len(b.Idx)
+		case *NilV:
+			_, ok := y.(*NilV)
+			return ok
 		}
-		for _, e := range alts {
-			if it.sameValue(e, v) {
+		return it.sameValue(x, y)
+	}
+	addOne := func(v Value) {
+		for i, e := range alts {
+			if e == v || it.sameValue(e, v) {
+				return
+			}
+			if sameRef(e, v) {
+				alts[i] = it.Join(e, v, nil, nil)
 				return
 			}
 		}
 		alts = append(alts, v)
+	}
+	add := func(v Value) {
+		if m, ok := v.(*Multi); ok {
+			for _, a := range m.Alts {
+				addOne(a)
+			}
+			return
+		}
+		addOne(v)
 	}
 	add(t)
 	add(f)
@@ -422,7 +449,7 @@ func (it *Interp) sameValue(a, b Value) bool {
 		return ok && types.Identical(x.T, y.T) && it.sameValue(x.V, y.V)
 	case *Slice:
 		y, ok := b.(*Slice)
-		return ok && x.Obj == y.Obj && x.Path == y.Path && x.Len.VID == y.Len.VID
+		return ok && x.Obj == y.Obj && x.Path == y.Path && (x.Len.VID == y.Len.VID || (x.Len.Lo == y.Len.Lo && x.Len.Hi == y.Len.Hi && x.Off.Lo == y.Off.Lo && x.Off.Hi == y.Off.Hi))
 	case *Int:
 		y, ok := b.(*Int)
 		if !ok {
@@ -499,6 +526,24 @@ func (it *Interp) JoinStates(t, f *State, gate *Bool, pre Deps) *State {
 		// cf == nil: f did not touch the object; its version is the base
 		if cf == nil {
 			cf = f.base.objs[id]
+		}
+		if cf == nil {
+			if _, isGlobal := o.Site.(*ssa.Global); !isGlobal && o.Site != nil {
+				// the allocation was never executed on f's path: the object does
+				// not exist there, so nothing on that path can observe it
+				owned(id, o)
+				return
+			}
+		}
+		if _, inT := t.objs[id]; !inT && t.base.objs[id] == nil && cf != nil {
+			if _, isGlobal := o.Site.(*ssa.Global); !isGlobal && o.Site != nil {
+				n := &objCells{owner: t, mode: cf.mode, m: make(map[string]Value, len(cf.m))}
+				for k, v := range cf.m {
+					n.m[k] = v
+				}
+				t.objs[id] = n
+				return
+			}
 		}
 		n := owned(id, o)
 		modeT, modeF := n.mode, o.Mode
